@@ -11,6 +11,7 @@ from speclib import *
 from spec.real import *
 from spec.floats import *
 from spec.c20 import *
+from spec.c20x import *
 
 
 class Context_round(Contract):
@@ -79,6 +80,8 @@ class core_split(Contract):
     params = {'x': 'Float', 'n': 'Float', 'ctx': 'Context'}
     returns = 'tuple[Float, Float]'
     properties = ['C20']
+    # most obligations follow from RealFloat.split's contract by congruence alone: try without pow2/bl axiom instances first
+    options = {'noax_first_ms': 4000, 'theory_light': True}
     note = 'for every context (abstract Context.round); hi + lo == x exactly whenever split returns'
 
     def post(x, n, ctx, result):
@@ -91,8 +94,13 @@ class core_split(Contract):
                            hi._isinf and lo._isinf and hi._real._s == xr._s and lo._real._s == xr._s),
         }
         if fl_finite(x):
-            nv = rf_int_value(n._real)
+            nv = fl_int_value(n)        # == rf_int_value(n._real); the term of Float.__int__'s closed form
             he, hc, le, lc = split_parts(xr._exp, xr._c, nv)
+            # proof steps (contracts/c20x_lemmas.py): an exact rounding re-encodes its operand
+            if lc != 0:
+                apply_lemma('C20x_reenc_e', ea=le, ca=lc, er=lo._real._exp, cr=lo._real._c)
+            if xr._c != 0 and nv >= xr._exp and nv < e_of(xr):
+                apply_lemma('C20x_reenc_sum', h=hi._real, l=lo._real, x=xr, n=nv)
             out.update({
                 'finite': fl_finite(hi) and fl_finite(lo),
                 # the two parts are the digits above n / at or below n of x
@@ -113,7 +121,7 @@ class core_split(Contract):
             return {'ValueError': not round_ok_sc(ctx, True, False, False, 0, 0, True)}
         if x._isinf:
             return {'ValueError': not round_ok_sc(ctx, False, True, xr._s, 0, 0, True)}
-        nv = rf_int_value(n._real)
+        nv = fl_int_value(n)        # == rf_int_value(n._real); the term of Float.__int__'s closed form
         he, hc, le, lc = split_parts(xr._exp, xr._c, nv)
         return {'ValueError': not (round_ok_sc(ctx, False, False, xr._s, he, hc, True)
                                    and round_ok_sc(ctx, False, False, xr._s, le, lc, True))}
@@ -124,6 +132,7 @@ class core_modf(Contract):
     params = {'x': 'Float', 'ctx': 'Context'}
     returns = 'tuple[Float, Float]'
     properties = ['C20']
+    options = {'noax_first_ms': 4000, 'theory_light': True}
     note = 'for every context (abstract Context.round); integral + fractional == x, C modf special cases'
 
     def post(x, ctx, result):
@@ -149,6 +158,14 @@ class core_modf(Contract):
             })
             return out
         # finite nonzero: exact recombination, integral part is an integer, |fractional| < 1, signs of x
+        # proof steps (contracts/c20x_lemmas.py): an exact rounding re-encodes its operand
+        he, hc, le, lc = split_parts(xr._exp, xr._c, -1)
+        if hc != 0:
+            apply_lemma('C20x_reenc_e', ea=he, ca=hc, er=i._real._exp, cr=i._real._c)
+        if lc != 0:
+            apply_lemma('C20x_reenc_e', ea=le, ca=lc, er=f._real._exp, cr=f._real._c)
+        if -1 >= xr._exp and -1 < e_of(xr):
+            apply_lemma('C20x_reenc_sum', h=i._real, l=f._real, x=xr, n=-1)
         out.update({
             'finite': fl_finite(i) and fl_finite(f),
             'sum': sum2_eq(i._real, f._real, xr),
@@ -180,6 +197,7 @@ class core_frexp(Contract):
     overrides = {'x._ctx': 'Context | None'}
     returns = 'tuple[Float, Float]'
     properties = ['C20']
+    options = {'noax_first_ms': 4000, 'light_axioms': True}
     note = ('for every context (abstract Context.round / Context.normalize); m * 2^e == x with 1 <= |m| < 2; '
             'the docstring promises an exact computation, so an exponent the context cannot hold must raise')
 
@@ -229,6 +247,7 @@ class core_frexp(Contract):
                                        and round_ok_sc(ctx, False, False, False, 0, 0, True))}
         ex = e_of(xr)
         eabs = ite(ex < 0, -ex, ex)
-        cn = norm_c(x._ctx, xr._s, xr._exp, xr._c) if x._ctx is not None else xr._c
+        # the repaired frexp no longer normalises x under its own context: the mantissa keeps the significand of x
+        cn = xr._c
         return {'ValueError': not (round_ok_sc(ctx, False, False, xr._s, 1 - bl(cn), cn, True)
                                    and round_ok_sc(ctx, False, False, ex < 0, 0, eabs, True))}
